@@ -52,6 +52,8 @@ def _one_hierarchy(ev, types, seqs, Ps, child, has_seq, idoff, ask):
         try:
             par = build_parent(d, types, seqs, Ps, has_seq, None, idoff)
             c = E.make_loc(child[0], child[1], par)
+            if len(root) % 4 == 1 or (child[0][0][0] % 3 == 0):  # a deterministic share of used locations / parents
+                E.warm(c)
         except Exception:
             return  # the library refuses this hierarchy (e.g. a level longer than its parent): not a lift question
 
